@@ -68,4 +68,22 @@ var specs = map[string]checkSpec{
 		Stubs: commonStubs,
 		Assume: append([]string{"porcupine v1.3.0 linearizability checker; Unknown (time-out) results are counted, not reported"}, commonAssume...),
 	},
+	"C20": {
+		Level: "exploration",
+		Quick: budget{Runs: 1200, Chunk: 100},
+		Thor:  budget{Seconds: 900, Chunk: 300},
+		Rule:  "1-3 owner actors (children of a restarting supervisor) with 1-5 jobs each: Once / Loop (100 ms - 1 s) / valid Cron (every 2 s) / invalid Cron, to self or to a sink actor, with explicit, shared-across-actors and default references; 0-3 disruptions (Cancel known, Cancel unknown, Clear, kill owner, restart owner) at drawn simulated instants strictly between and exactly at firing instants; go-quartz runs for real on the simulated clock for 3.2 s. Oracle against the fake clock: the set of delivery instants of every job equals the expected firing instants before its end (the instant equal to the end is optional), never early, never twice, nothing (delivery or dead letter) after cancel / clear / owner death / owner restart, invalid Cron returns ErrorCronParse and never fires, Cancel(unknown) returns not-found, behaviours receive the original message value.",
+		Real:  commonReal,
+		Stubs: commonStubs,
+		Assume: commonAssume,
+	},
+	"C04": {
+		Level: "exploration",
+		Quick: budget{Runs: 1200, Chunk: 100, Race: 300},
+		Thor:  budget{Seconds: 900, Chunk: 300, Race: 25},
+		Rule:  "1-12 Asks per run from actors and outside goroutines to 1-2 responders that reply once, twice, late (scheduled delay), with an error, or never; timeouts 1 ms - 30 s; 1-3 goroutines blocked in Result()/Wait() per future; optional third-party Close at a drawn instant; optional kill of an asking actor with futures outstanding; PipeTo (1-2 dedicated forwarder actors per future) before, around and after completion. Oracles: all waiters of a future return the same single outcome at the same simulated instant; a reply outcome carries the request's own id and is the responder's first reply; a timeout completes exactly at ask time + timeout and only if no reply was due before it; actor-dead only after the asker's kill; no waiter is still blocked at the horizon; every forwarder gets exactly one PipeResult equal to the outcome; at quiescence no future is left in the path registry or futureAgents (accessor). The same workload runs in the -race binary.",
+		Real:  commonReal,
+		Stubs: commonStubs,
+		Assume: commonAssume,
+	},
 }
